@@ -889,7 +889,9 @@ func (in *Interp) expr(e *lang.N, env *Env) (Val, *Raise) {
 	case lang.EIfExpr, lang.SIf:
 		v, c, r := in.ifStmt(e, env)
 		if c != cNone {
-			panic("refsem: control flow out of an if-expression is outside the sheet")
+			// break / continue / return taken while an enclosing expression is half evaluated: the sheet says
+			// nothing about it (the stack-neutrality check has its own oracle for these programs)
+			return nil, raise("outside-sheet", "control flow out of an if-expression")
 		}
 		return v, r
 	case lang.SSwitch:
